@@ -186,6 +186,9 @@ def check_position(ctx, inst="C04.position"):
             v = R.arg_expr(cb, cb.nodes[w], 1)
             slot_ok = v.has_call("DiskIO::journal_sector") and (any(c.nid in nx for c in v.calls()) if cb is b else
                                                                 any(from_next(x) for x in v.walk() if x.k == "arg" and x.extra[0] != 1))
+            # ... the slot itself, not something computed from it (`journal_sector(1 - slot)` is the slot holding the newest record)
+            js = [c for c in v.calls() if path_matches(str(c.extra), "DiskIO::journal_sector")]
+            slot_ok = slot_ok and bool(js) and all(not any(x.k == "bin" for x in c.a[1].walk()) for c in js if len(c.a) > 1)
             ctx.check(slot_ok, inst, "PROVENANCE", cb.path, "the record is written to the sector of the slot next_journal_position chose", cb.where(w))
         if cb is not b:
             # generation and slot must not be swapped on the way into the helper: the slot stored is the slot written to
